@@ -71,12 +71,12 @@ func meet(a, b lat) lat {
 }
 
 type Result struct {
-	Fn      *ssa.Function
-	Exec    map[*ssa.BasicBlock]bool
-	Edge    map[[2]int]bool // executable CFG edges (from.Index, to.Index)
+	Fn   *ssa.Function
+	Exec map[*ssa.BasicBlock]bool
+	Edge map[[2]int]bool // executable CFG edges (from.Index, to.Index)
 	// when this result describes a callee reached by delegation (`return f(args...)`): terms of the arguments per parameter
-	Subst map[ssa.Value]aff
-	SSub  map[ssa.Value]string
+	Subst   map[ssa.Value]aff
+	SSub    map[ssa.Value]string
 	Val     map[ssa.Value]lat
 	Returns []*ssa.Return
 	Steps   int
@@ -525,7 +525,6 @@ func (l lat) String() string {
 	}
 	return l.v.String()
 }
-
 
 // edgeExec: the CFG edge pred->b is executable under the specialisation (nil result: every edge is).
 func (r *Result) edgeExec(pred, b *ssa.BasicBlock) bool {
